@@ -9,7 +9,7 @@
 (* 2^8, 2^15, 2^16 and at the end: counters that silently wrap or are narrowed *)
 (* show here and nowhere in the small-scope suites. One line = one run = one   *)
 (* TLC state.                                                                  *)
-EXTENDS Bytes, Json, IOUtils, TLC
+EXTENDS ReaderA, Json, IOUtils, TLC
 Rec == ndJsonDeserialize(IOEnv.TRACE)
 VARIABLE l
 Init == l = 1
@@ -48,6 +48,12 @@ Viol(r) ==
         <<"C05", "seek_to_reported_position", r.panic \/ ~r.seek.done \/
               (r.seek.ok /\ r.seek.res.k = "rec" /\ r.seek.res.head = HeadOf(r.seek.target)
                /\ r.seek.line = LineOf(fmt, r.seek.target) /\ r.seek.byte = ByteOf(fmt, r.crlf, r.seek.target))>>,
+        \* all records have the same shape: a set read that holds no more records than an earlier one, and the read after a
+        \* far seek, need no memory (C18)
+        <<"C18", "set_read_allocated_in_steady_state", "steady_allocs" \notin DOMAIN r \/ r.steady_allocs = 0>>,
+        <<"C18", "next_allocated_after_seek", r.panic \/ ~r.seek.done \/ "allocs_in_next" \notin DOMAIN r.seek \/ r.seek.allocs_in_next = 0>>,
+        \* the source of these runs never fails (it is slow and interrupted at most): no I/O error may surface (C14)
+        <<"C14", "io_error_without_source_error", r.last.k # "io">>,
         <<"C05", "seek_target_reached", r.panic \/ r.count < r.n \/ r.n < 2 \/ r.mode # "next" \/ r.seek.done>>
       >>
   IN {<<conj[i][1], conj[i][2]>> : i \in {i \in 1..Len(conj) : ~conj[i][3]}}
@@ -65,15 +71,31 @@ GiantViol(r) ==
       w == r.w
       a == r.first
       b == r.second
-      firstBytes == IF fmt = "fasta" THEN (6 + e) + m * (w + e) ELSE (6 + e) + (w + e) + (1 + e) + (w + e)
+      alt == IF "alt" \in DOMAIN r THEN r.alt ELSE 0
+      extra == IF "extra" \in DOMAIN r THEN r.extra ELSE 0
+      WidthOf(i) == IF alt > 0 /\ i % 2 = 1 THEN alt ELSE w
+      nOdd == (m + 1) \div 2
+      total == IF alt > 0 THEN nOdd * alt + (m - nOdd) * w ELSE m * w
+      firstBytes == IF fmt = "fasta" THEN (6 + e) + total + m * e ELSE (6 + e) + (w + e) + (1 + e) + (w + extra + e)
       firstLines == IF fmt = "fasta" THEN m + 1 ELSE 4
-      faFirst == a.k = "rec" /\ a.head = BigHead /\ a.iterated = m /\ a.sum = m * w
-                 /\ \A i \in 1..Len(a.lines) : a.lines[i].len = w /\ a.lines[i].first = ACGT[(a.lines[i].i % 4) + 1]
-      faViews == a.k # "rec" \/ (a.nlines = m /\ a.len_hint = m /\ a.owned = m * w /\ a.full = m * w /\ a.raw = m * w + (m - 1) * e /\ a.last_from_back = w)
+      faFirst == a.k = "rec" /\ a.head = BigHead /\ a.iterated = m /\ a.sum = total
+                 /\ \A i \in 1..Len(a.lines) : a.lines[i].len = WidthOf(a.lines[i].i) /\ a.lines[i].first = ACGT[(a.lines[i].i % 4) + 1]
+      faViews == a.k # "rec" \/ (a.nlines = m /\ a.len_hint = m /\ a.owned = total /\ a.full = total /\ a.raw = total + (m - 1) * e /\ a.last_from_back = WidthOf(m))
+      \* RefRecord::write: the header line, then the whole sequence on one line
+      faWrite == a.k # "rec" \/ "write" \notin DOMAIN a \/ (a.write.headline = <<62>> \o BigHead /\ a.write.ends_lf /\ a.write.joined_is_seq /\ a.write.nlines = 1)
+      serdeOK == (a.k # "rec" \/ "serde_owned_eq" \notin DOMAIN a \/ a.serde_owned_eq) /\ ("serde_set_same" \notin DOMAIN r \/ r.serde_set_same)
+                 /\ (fmt = "fasta" \/ a.k # "rec" \/ "serde_quallen" \notin DOMAIN a \/ a.serde_quallen = w)
+      \* FASTQ with a quality line longer than the sequence by a multiple of 2^16: one error of unequal lengths, then the end
+      fqUnequal == a.k = "unequal" /\ a.line = 1 /\ a.seq = w /\ a.qual = w + extra /\ b.k = "none"
       fqFirst == a.k = "rec" /\ a.head = BigHead /\ a.seqlen = w /\ a.quallen = w /\ a.seq_first = 65 /\ a.seq_last = 65 /\ a.qual_first = 73 /\ a.qual_last = 73
       fqViews == a.k # "rec" \/ (a.oseqlen = w /\ a.oquallen = w)
       second == b.k = "rec" /\ b.head = NextHead /\ (IF fmt = "fasta" THEN b.iterated = 1 /\ b.sum = 2 ELSE b.seqlen = 2 /\ b.quallen = 2)
-      conj == IF r.panic THEN << <<"C06", "panic", FALSE>> >> ELSE <<
+      conj == IF r.panic THEN << <<"C06", "panic", FALSE>> >>
+              ELSE IF extra > 0 THEN << <<"C02", "unequal_lengths_not_reported", fqUnequal>>, <<"C17", "error_fields", a.k # "unequal" \/ fqUnequal>> >>
+              ELSE <<
+        <<"C10", "record_write_roundtrip", fmt # "fasta" \/ faWrite>>,
+        <<"C11", "record_write_roundtrip", fmt # "fastq" \/ a.k # "rec" \/ "written_line_lens" \notin DOMAIN a \/ a.written_line_lens = <<6, w, 1, w, 0>> >>,
+        <<"C19", "roundtrip_of_giant_record", serdeOK>>,
         <<base, "giant_record_content", IF fmt = "fasta" THEN faFirst ELSE fqFirst>>,
         <<"C13", "giant_record_views", IF fmt = "fasta" THEN faViews ELSE fqViews>>,
         <<base, "record_after_giant_record", second>>,
@@ -84,19 +106,26 @@ GiantViol(r) ==
 
 \* ---- wrapped writing of a long sequence (C10): the header line, then lines of exactly the wrap width and a last, shorter,
 \* non-empty one; joined they are the sequence
-WriteViol(r) ==
-  LET full == r.len \div r.w
-      rest == r.len % r.w
+LongWriteViol(r) ==
+  LET full == IF r.w = 0 THEN 0 ELSE r.len \div r.w
+      rest == IF r.w = 0 THEN 0 ELSE r.len % r.w
       want == (IF full > 0 THEN << <<r.w, full>> >> ELSE <<>>) \o (IF rest > 0 THEN << <<rest, 1>> >> ELSE <<>>)
       conj == IF r.panic THEN << <<"C10", "write_function_panicked", FALSE>> >> ELSE <<
-        <<"C10", "long_wrap_header_line", r.headline = <<62, 105, 100, 32, 100>> /\ r.ends_lf>>,
+        <<"C10", "long_wrap_header_line", r.headline_is_head /\ r.ends_lf>>,
         <<"C10", "long_wrap_roundtrip", r.joined_is_seq>>,
-        <<"C10", "long_wrap_width", r.rle = want>>
+        <<"C10", "long_wrap_width", r.rle = (IF r.w = 0 THEN << <<r.len, 1>> >> ELSE want)>>
       >>
   IN {<<conj[i][1], conj[i][2]>> : i \in {i \in 1..Len(conj) : ~conj[i][3]}}
 
+\* ---- the built-in policies asked directly (C09: "the built-in policies compute the documented sizes"); answers are logged
+\* clamped to 2^31 - 1
+PolViol(r) ==
+  IF r.panic THEN {<<"C09", "builtin_policy_panicked">>}
+  ELSE IF \E i \in 1..Len(r.rows) : LET want == PolicyAns(r.rows[i].p, r.rows[i].c) IN want >= 0 /\ r.rows[i].a # want
+       THEN {<<"C09", "builtin_policy_arithmetic">>} ELSE {}
+
 Next == /\ l <= Len(Rec)
-        /\ LET v == IF Rec[l].ev = "giant" THEN GiantViol(Rec[l]) ELSE IF Rec[l].ev = "longw" THEN WriteViol(Rec[l]) ELSE Viol(Rec[l]) IN
+        /\ LET v == IF Rec[l].ev = "giant" THEN GiantViol(Rec[l]) ELSE IF Rec[l].ev = "longw" THEN LongWriteViol(Rec[l]) ELSE IF Rec[l].ev = "poltab" THEN PolViol(Rec[l]) ELSE Viol(Rec[l]) IN
              v # {} => PrintT(<<"MISMATCH", ToJson([kind |-> "long", line |-> l, run |-> l, props |-> {x[1] : x \in v}, why |-> {x[2] : x \in v},
                                                    extra |-> [fmt |-> Rec[l].fmt, cap |-> Rec[l].cap, ev |-> Rec[l].ev]])>>)
         /\ l' = l + 1
